@@ -418,6 +418,25 @@ def mhn_law_native(c, which):
     c.holds('draws_follow_the_documented_density', ks < 0.04, note=f"Kolmogorov distance {ks:.4f} at alpha={al:.3g} beta={be:.3g} gamma={ga:.3g} (4000 draws; 0.1% critical value 0.031)")
 
 
+def sparse_cholesky_contract(c, n, low_threshold):
+    """helper-level contract of cuqi.utilities.sparse_cholesky (the factor the zero-boundary GMRF sampler solves with): it returns an UPPER triangular U with
+    U^T U = A - exactly A, not a permuted A - for matrices on both sides of every size threshold in cuqi.config (the thresholds are lowered for the run so
+    that a small matrix takes the large-matrix route); bounded stand-in (native)"""
+    import scipy.sparse as sp
+    from cuqi import config
+    from cuqi.utilities import sparse_cholesky
+    d = 2.5 + np.array([abs(c.real(f'd{i}')) for i in range(n)]); off = np.array([c.real(f'o{i}', lo=-0.9, hi=0.9) for i in range(n - 1)])
+    far = 0.3 * np.array([c.real(f'f{i}', lo=-0.9, hi=0.9) for i in range(n - 3)])
+    A = sp.diags([far, off, d, off, far], [-3, -1, 0, 1, 3], format='csc')          # banded, not tridiagonal: a fill-reducing ordering would permute it
+    saved = (config.MAX_DIM_INV, config.MIN_DIM_SPARSE)
+    if low_threshold: config.MAX_DIM_INV = 3; config.MIN_DIM_SPARSE = 2
+    try: U = sparse_cholesky(A)
+    finally: config.MAX_DIM_INV, config.MIN_DIM_SPARSE = saved
+    Ud = U.toarray() if hasattr(U, 'toarray') else np.asarray(U)
+    c.holds('factor_is_upper_triangular', bool(np.allclose(Ud, np.triu(Ud), atol=0)), note='entries below the diagonal')
+    c.eq('factor_transposed_times_factor_is_the_matrix_itself', Ud.T @ Ud, A.toarray(), tol=1e-10)
+
+
 def jobs(tier):
     J = []
     q = tier == 'quick'
@@ -454,4 +473,6 @@ def jobs(tier):
         J.append(Job(f'MHN.rejection_scheme:{scheme}_proposal', lambda c, s=scheme: mhn_rejection(c, s), 'Pbox', MH, timeout=600))
     for which in ('negative_gamma', 'positive_gamma_selection'):
         J.append(Job(f'MHN._MHN_sample:law:{which}', lambda c, w=which: mhn_law_native(c, w), 'B', [f'{D}._modifiedhalfnormal:ModifiedHalfNormal._MHN_sample', f'{D}._modifiedhalfnormal:ModifiedHalfNormal._MHN_sample_negative_gamma', f'{D}._modifiedhalfnormal:ModifiedHalfNormal._MHN_sample_positive_gamma_1'], nnum=3 if q else 12))
+    for low in (False, True):
+        J.append(Job(f'sparse_cholesky:factor_of_the_matrix_itself:size_thresholds_lowered={low}', lambda c, low=low: sparse_cholesky_contract(c, 8, low), 'B', ['cuqi.utilities._utilities:sparse_cholesky'], nnum=4))
     return J
